@@ -179,7 +179,11 @@ def measureReq (j : Json) : R Json := do
   let t := if stage == 1 then inp.train1 else inp.train2
   -- the measure is computed on the grouped table; n_obs is the size of the table it came from
   let g := grouper cfg t.rows comb
-  pure (obj [("m", measureW (measure cfg (g.map (·.2)) (nRows t.rows) t.tie)), ("groups", natW g.length)])
+  -- … and the verdict of `_test_viability` on the same grouping (train and, when given, dev): possible / certain
+  let dev := if stage == 1 then inp.dev1 else inp.dev2
+  let v := viability cfg t.rows dev comb
+  pure (obj [("m", measureW (measure cfg (g.map (·.2)) (nRows t.rows) t.tie)), ("groups", natW g.length),
+             ("viable", boolW v.viable), ("certain", boolW v.certain)])
 
 /-- `combos`: the enumerators on abstract labels -/
 def combos (j : Json) : R Json := do
